@@ -324,6 +324,37 @@ class _RawConfigParser(configparser.RawConfigParser):
     super(_RawConfigParser, self).__init__(dict_type = _ConfigParserDict, default_section = "Variables", interpolation = configparser.ExtendedInterpolation())
     self._sections = collections.OrderedDict()
 
+  # The default section ([Variables]) only provides values for ${...} substitution. Python's configparser
+  # would also make its entries visible as options of every other section (this is what a 'default section' is for),
+  # which means that defining a variable changes what the other sections appear to contain. The following
+  # methods hide the inherited entries whilst leaving interpolation untouched.
+
+  def _is_inherited(self, section, option):
+    if section == self.default_section or not section in self._sections:
+      return False
+    return not self.optionxform(option) in self._sections[section]
+
+  def options(self, section):
+    """Return the option names defined in `section` itself (excluding those inherited from [Variables])"""
+    if section == self.default_section:
+      return list(self._defaults.keys())
+    try:
+      return list(self._sections[section].keys())
+    except KeyError:
+      raise configparser.NoSectionError(section)
+
+  def has_option(self, section, option):
+    if section and self._is_inherited(section, option):
+      return False
+    return super(_RawConfigParser, self).has_option(section, option)
+
+  def get(self, section, option, **kwargs):
+    if kwargs.get("vars", None) is None and self._is_inherited(section, option):
+      if "fallback" in kwargs:
+        return kwargs["fallback"]
+      raise configparser.NoOptionError(option, section)
+    return super(_RawConfigParser, self).get(section, option, **kwargs)
+
   def optionxform(self, option):
     # Whitespace is not significant in option names ('A - B' is 'A-B', 'f(r, A)' is 'f(r,A)').
     # Normalise here, and not only in the dictionary that stores the options, so that
